@@ -503,13 +503,14 @@ def build(desc):
                 used_amp = amp
                 break
             amp *= 0.5
+    # domain labels are intrinsic to the (displaced) base geometry: assigned before the rigid motion / scaling
+    doms = assign_domains(v, e, desc.get("domains"), base_doms)
     an = desc.get("aniso")
     if an:
         v = v * np.asarray(an, dtype=float)[None, :]
     v = v @ _rotation(desc.get("quat", [1, 0, 0, 0])).T
     v = v * (10.0 ** float(desc.get("lscale", 0)))
     v = v + np.asarray(desc.get("trans", [0, 0, 0]), dtype=float)[None, :]
-    doms = assign_domains(v, e, desc.get("domains"), base_doms)
     E = np.asarray(e, dtype=np.int64)
     doms = np.asarray(doms, dtype=np.int64)
     rl = desc.get("relabel")
